@@ -1,9 +1,10 @@
 import RedisGoModel.Exec.StringKeys
+import RedisGoModel.Exec.Stream
 /-! Command table and dispatch (`server.Manager.ExecCommand`: lower-cased command name, table lookup). -/
 namespace Exec
 open Resp (Reply Bytes)
 
-def cmdTable : List (String × Cmd) := stringKeyTable
+def cmdTable : List (String × Cmd) := stringKeyTable ++ streamTable
 
 def lookupCmd (name : Bytes) : Option Cmd :=
   (cmdTable.find? fun p => ofStr p.1 == name).map (·.2)
